@@ -307,3 +307,42 @@ func clip(b []byte) []byte {
 	}
 	return b
 }
+
+// HasHexID reports whether the type carries an SMGP message id.
+func HasHexID(s *ref.PDUSpec) bool {
+	for _, f := range s.Fields {
+		if f.Kind == ref.HexID {
+			return true
+		}
+	}
+	return false
+}
+
+// LayoutEncodeRawID: the SMGP encoders also accept a message id given as its 10 raw octets; whatever
+// those octets are (decimal-looking, hex-looking, binary) they go on the wire unchanged and come back
+// as their hexadecimal form.
+func LayoutEncodeRawID(b *Binding, v *ref.Vals) *vk.Violation {
+	s := b.Spec
+	rv := *v
+	rv.Cmd = SpecCmd(b, v)
+	refImg := ref.Encode(s, &rv)
+	c := mkCase(b, v, "message id given as 10 raw octets", refImg)
+	p := b.FillOpt(v, true)
+	var img []byte
+	var err error
+	if pn := guard("layout-rawid", b, v, refImg, func() { img, err = p.IEncode() }); pn != "" {
+		return vk.Violf(s.ID()+"/rawid/panic", c, "%s: IEncode panicked\n%s", s.ID(), pn)
+	}
+	if err != nil {
+		return vk.Violf(s.ID()+"/rawid/error", c, "%s: IEncode failed for a raw 10-octet message id: %v", s.ID(), err)
+	}
+	q := b.New()
+	if err = q.IDecode(img); err != nil {
+		return vk.Violf(s.ID()+"/rawid/decode-error", c, "%s: own output rejected: %v", s.ID(), err)
+	}
+	if d := ref.DiffOpt(s, &rv, b.Extract(q), true); d != "" && s.ID() != "smgp30.ActiveTestResp" {
+		v2 := *v
+		return vk.Violf(diffKey(b, "rawid", d, &v2, b.Extract(q)), c, "%s: a message id given as raw octets does not reach the wire unchanged: %s", s.ID(), d)
+	}
+	return nil
+}
